@@ -228,10 +228,13 @@ var c18Ctxs = []c18Ctx{
 	12: {name: "slash_comment_3_indented_inside", lines: []string{"/* 注释一", "        注释二", "*/"}},
 	13: {name: "zhu_comment_1", lines: []string{"注：单行说明"}},
 	14: {name: "multiline_string_4_with_blank", lines: []string{"令%s = “第一行", "", "// 非注释", "第四行”"}, stmt: true},
+	// a backtick that opens no escape, right before the text's line break (the break is a line all the same)
+	15: {name: "multiline_string_2_backtick_before_break", lines: []string{"令%s = “第一行`", "第二行”"}, stmt: true},
+	16: {name: "multiline_string_3_backticks_before_breaks", lines: []string{"令%s = 「甲`", "乙`", "丙`丁」"}, stmt: true},
 }
 
-var c18QuickCtx = []int{1, 2, 3, 4, 5, 6, 7, 8, 9}
-var c18ThoroughCtx = []int{1, 2, 3, 4, 5, 6, 7, 8, 9, 10, 11, 12, 13, 14}
+var c18QuickCtx = []int{1, 2, 3, 4, 5, 6, 7, 8, 9, 15}
+var c18ThoroughCtx = []int{1, 2, 3, 4, 5, 6, 7, 8, 9, 10, 11, 12, 13, 14, 15, 16}
 var c18PairCtx = []int{1, 2, 4, 5, 7, 10}
 
 // ---------------------------------------------------------------- fault kinds
@@ -1242,7 +1245,7 @@ func init() {
 		ID:    "C18",
 		Level: "exploration",
 		Rule: "E1 exhaustive over the fault-placement product; programs are generated as text with one fault at a generator-known (module, physical line, column, call chain). " +
-			"Syntax faults {stray ！, invalid character ~ / ～, unterminated string, indentation of 4k+3 / 4k-1 spaces, TAB indent in a space-indented file, unexpected deeper indent} x file {main, imported module 外} x every statement slot (every gap and every admissible indent) of 5 template programs {sequence, 如果/否则, 每当, 遍历+如果, around a method definition} x context before the fault line {none, 3-line string literal, /* */ over 2 and 3 lines, 注：「」 over 2 lines, 1-2 blank lines, // comment, comment ending on the fault's own line; thorough: more forms, ordered pairs, top-of-file placement} x line end {LF, CRLF, CR} x 10 prefixes before the offending character (ASCII, CJK, full-width punctuation, in-line comment, multi-line literal ending on the line) x last line with / without line end. " +
+			"Syntax faults {stray ！, invalid character ~ / ～, unterminated string, indentation of 4k+3 / 4k-1 spaces, TAB indent in a space-indented file, unexpected deeper indent} x file {main, imported module 外} x every statement slot (every gap and every admissible indent) of 5 template programs {sequence, 如果/否则, 每当, 遍历+如果, around a method definition} x context before the fault line {none, 3-line string literal, /* */ over 2 and 3 lines, 注：「」 over 2 lines, 1-2 blank lines, // comment, comment ending on the fault's own line, 2-line string literal whose first line ends with a backtick that opens no escape; thorough: more forms, ordered pairs, top-of-file placement} x line end {LF, CRLF, CR} x 10 prefixes before the offending character (ASCII, CJK, full-width punctuation, in-line comment, multi-line literal ending on the line) x last line with / without line end. " +
 			"Runtime faults {1 / 0, undefined name, uncaught 抛出异常, index out of range; loop condition faulting on its second evaluation} x every slot that executes (straight, first loop pass, or inside a finished-later call of a local method) x context (before the fault / top of file) x line end x call depth 0..3 (call sites: declaration, inside 如果, inside 遍历; thorough: 6 uniform forms) x module boundary {none, innermost method in 外, two innermost in 外} x handled exception earlier {no, in main, right before the fault}. " +
 			"Faults met while 外 is being imported x contexts before the 导入 line. Caret column after every character of the unambiguous-width alphabet. Oracle: positions known to the generator; widths from an embedded East-Asian-width table. Cases are distinct by construction (injective parameters); non-trivial = anything beyond a bare LF depth-0 program without context or prefix.",
 		Assumptions: []string{
